@@ -432,6 +432,59 @@ pub fn run(args: &Args) -> Report {
             }
         }
     }
+    // ifdata_cleanup() at every place an IF_DATA block can stand: each host holds [invalid, valid, invalid]; afterwards
+    // the written file holds exactly one - valid - block per host, and stays so over write + load
+    {
+        let blocks = "/begin IF_DATA XCP \"no\" /end IF_DATA /begin IF_DATA XCP 5 /end IF_DATA /begin IF_DATA XCP /begin q /end q /end IF_DATA";
+        let hosts: Vec<(&str, String)> = vec![
+            ("MODULE", blocks.to_string()),
+            ("MEMORY_LAYOUT", format!("/begin MOD_PAR \"\" /begin MEMORY_LAYOUT PRG_CODE 0 0 -1 -1 -1 -1 -1 {blocks} /end MEMORY_LAYOUT /begin MEMORY_LAYOUT PRG_DATA 16 1 -1 -1 -1 -1 -1 {blocks} /end MEMORY_LAYOUT /begin MEMORY_SEGMENT seg \"\" CODE FLASH INTERN 0 0 -1 -1 -1 -1 -1 {blocks} /end MEMORY_SEGMENT /end MOD_PAR")),
+            ("AXIS_PTS", format!("/begin AXIS_PTS ap \"\" 0 NO_INPUT_QUANTITY rl 0 NO_COMPU_METHOD 1 0 1 {blocks} /end AXIS_PTS")),
+            ("BLOB", format!("/begin BLOB bl \"\" 0 1 {blocks} /end BLOB")),
+            ("CHARACTERISTIC", format!("/begin CHARACTERISTIC ch \"\" VALUE 0 rl 0 NO_COMPU_METHOD 0 1 {blocks} /end CHARACTERISTIC")),
+            ("FRAME", format!("/begin FRAME fr \"\" 1 1 {blocks} /end FRAME")),
+            ("FUNCTION", format!("/begin FUNCTION fu \"\" {blocks} /end FUNCTION")),
+            ("GROUP", format!("/begin GROUP gr \"\" {blocks} /end GROUP")),
+            ("INSTANCE", format!("/begin INSTANCE ins \"\" td 0 {blocks} /end INSTANCE")),
+            ("MEASUREMENT", format!("/begin MEASUREMENT me \"\" UBYTE NO_COMPU_METHOD 0 0 0 255 {blocks} /end MEASUREMENT")),
+        ];
+        let body: String = hosts.iter().map(|h| h.1.clone()).collect::<Vec<_>>().join("\n");
+        let nhost = 12; // MODULE, 2 MEMORY_LAYOUT, MEMORY_SEGMENT, 8 named elements
+        let doc = format!("ASAP2_VERSION 1 71\n/begin PROJECT p \"\"\n/begin MODULE m \"\"\n/begin A2ML\nblock \"IF_DATA\" taggedunion {{ \"XCP\" uint; }};\n/end A2ML\n{body}\n/end MODULE\n/end PROJECT\n");
+        let input = format!("{} -", hex(doc.as_bytes()));
+        rep.case(&doc, true);
+        rep.bump("cleanup-all-hosts");
+        let count = |t: &str| t.matches("/begin IF_DATA").count();
+        match catch(|| a2lfile::load_from_string(&doc, None, false)) {
+            Ok(Ok((mut f, log))) => {
+                let before = count(&f.write_to_string());
+                if before != 3 * nhost {
+                    rep.sample(format!("cleanup-all-hosts log: {}", log.iter().map(|e| e.to_string()).collect::<Vec<_>>().join(" | ")));
+                }
+                f.ifdata_cleanup();
+                let w = f.write_to_string();
+                let after = count(&w);
+                let per_host_ok = w.matches("XCP 5").count() == nhost && !w.contains("\"no\"") && !w.contains("/begin q");
+                if before != 3 * nhost {
+                    rep.fail("generator", input, format!("cleanup-all-hosts: {before} IF_DATA blocks loaded, {} expected", 3 * nhost));
+                } else if after != nhost || !per_host_ok {
+                    rep.fail("cleanup", input, format!("ifdata_cleanup() left {after} IF_DATA blocks in the written file, {nhost} valid ones expected (one in each of MODULE, 2 x MEMORY_LAYOUT, MEMORY_SEGMENT, AXIS_PTS, BLOB, CHARACTERISTIC, FRAME, FUNCTION, GROUP, INSTANCE, MEASUREMENT); invalid content still present: {}", w.contains("\"no\"") || w.contains("/begin q")));
+                } else {
+                    match catch(|| a2lfile::load_from_string(&w, None, false)) {
+                        Ok(Ok((mut f2, _))) => {
+                            f2.ifdata_cleanup();
+                            if f2.write_to_string() != w {
+                                rep.fail("cleanup", input, "ifdata_cleanup() is not stable over write + load".into());
+                            }
+                        }
+                        _ => rep.fail("load", input, "cleanup-all-hosts: written file rejected".into()),
+                    }
+                }
+            }
+            Ok(Err(e)) => rep.fail("generator", input, format!("cleanup-all-hosts: {e}")),
+            Err(p) => rep.fail("panic", input, p),
+        }
+    }
     // witness scenario (known finding C18-comment-only-ifdata): an IF_DATA holding nothing but a comment is read as content
     // (valid under a definition that allows an empty tagged union), written without the comment, and read back as an
     // empty - invalid - block; the same block with one item is the control
